@@ -48,7 +48,7 @@ TEffect ==
           /\ st' = [st EXCEPT ![a] = "flying"]
           /\ IF a \in Closers
              THEN KStart(a) \/ KLock(a) \/ KDecide(a) \/ KUnlock(a) \/ KWaitEnd(a) \/ KReturn(a)
-             ELSE Deliver(a) \/ CLock(a) \/ CDecide(a) \/ CEnter(a) \/ CFinish(a) \/ CLoop(a)
+             ELSE Deliver(a) \/ CLock(a) \/ CDecide(a) \/ CEnter(a) \/ CStart(a) \/ CFinish(a) \/ CLoop(a)
     /\ UNCHANGED l
 
 PointOf(a) ==
@@ -57,7 +57,7 @@ PointOf(a) ==
            [] kpc[a] = "decided" -> "close.decided" [] kpc[a] = "waiting" -> "close.waiting"
            [] kpc[a] = "return" -> "close.return" [] OTHER -> "-"
     ELSE CASE cpc[a] = "admit" -> "cmd.admit" [] cpc[a] = "locked" -> "cmd.locked"
-           [] cpc[a] = "added" -> "cmd.added" [] cpc[a] = "refused" -> "cmd.refused"
+           [] cpc[a] = "added" -> "cmd.added" [] cpc[a] = "refused" -> "cmd.refused" [] cpc[a] = "admitted" -> "cmd.admitted"
            [] cpc[a] = "handler" -> "h.enter" [] cpc[a] = "donep" -> "cmd.done" [] OTHER -> "-"
 
 \* the goroutine arrives at its next hook point
